@@ -59,6 +59,19 @@ var (
 	uNames = []string{"", "alpha", "beta"}
 )
 
+// uName is the name entry a naming handler would hand over for name n: besides the name, the attributes those handlers fill in
+// (a function of the name, so "the same announcement again" is the same entry again and must change nothing).
+func uName(source string, n int) packet.NameEntry {
+	ne := packet.NameEntry{Type: source, Name: uNames[n]}
+	switch n {
+	case 1:
+		ne.Manufacturer, ne.Model = "Apple", "MacBookPro14,1"
+	case 2:
+		ne.OS = "linux"
+	}
+	return ne
+}
+
 type hop struct {
 	K string        // f4 f6 arp dhcp(DHCPv4Update + dhcp frame) dhcpframe name capture release offer adv
 	M int           // MAC index
@@ -164,6 +177,10 @@ type hostsRun struct {
 	changed  bool
 	viol     bool
 	tx       bool // apply the universal C07 rules to every frame the session emits (purge probes)
+	// noReader: the owner of the session never reads the notification channel (reading it is optional) and the LAN is large
+	// enough (136 more stations) to fill it: tracking and the table invariants are judged as always, the notification
+	// trace (C06) is not - what is dropped on a full channel is the library's documented choice
+	noReader bool
 }
 
 func tripleStr(t []model.Triple) string {
@@ -214,12 +231,31 @@ func (hr *hostsRun) history() {
 	synctest.Wait()
 	m.Advance(time.Now())
 	drain := func() (out []packet.Notification) {
+		if hr.noReader {
+			return nil
+		}
 		for len(s.C) > 0 {
 			out = append(out, <-s.C)
 		}
 		return out
 	}
 	drain()
+	if hr.noReader {
+		rxc := newRx()
+		for k := 0; k < 136; k++ {
+			mac := refdec.MAC{0x02, 0xee, 0, 0, 1, byte(k)}
+			ip := netip.AddrFrom4([4]byte{192, 168, 0, byte(100 + k)})
+			if frame, err := s.Parse(rxc.load(buildFrame("f4", mac, ip))); err == nil {
+				s.Notify(frame)
+			}
+			m.Frame("ip4", model.MAC(mac[:]), ip, false)
+		}
+		synctest.Wait()
+		c.Obs("histories_with_unread_notification_channel", 1)
+		if len(s.C) == cap(s.C) {
+			c.Obs("notification_channel_full", 1)
+		}
+	}
 	cs := func(step int) map[string]any {
 		var ops []string
 		for i, o := range hr.ops {
@@ -282,7 +318,7 @@ func (hr *hostsRun) history() {
 				frame, err := s.Parse(b)
 				if err == nil {
 					if frame.Host != nil {
-						ne := packet.NameEntry{Type: o.S, Name: uNames[o.N]}
+						ne := uName(o.S, o.N)
 						switch o.S {
 						case "mdns":
 							frame.Host.UpdateMDNSName(ne)
@@ -301,7 +337,7 @@ func (hr *hostsRun) history() {
 			case "dhcp":
 				// as a DHCP handler does: the MAC handed to DHCPv4Update is the chaddr field inside the receive buffer
 				b := rx.load(buildFrame("dhcpframe", mac, ip))
-				s.DHCPv4Update(net.HardwareAddr(b[14+20+8+28:14+20+8+34]), ip, packet.NameEntry{Type: "dhcp4", Name: uNames[o.N]})
+				s.DHCPv4Update(net.HardwareAddr(b[14+20+8+28:14+20+8+34]), ip, uName("dhcp4", o.N))
 				m.DHCPUpdate(model.MAC(mac[:]), ip, uNames[o.N])
 				frame, err := s.Parse(b)
 				if err == nil {
@@ -310,7 +346,7 @@ func (hr *hostsRun) history() {
 				want = m.Frame("ip4", model.MAC(mac[:]), uIPs[6], true)
 			case "name":
 				if h := s.FindIP(ip); h != nil {
-					ne := packet.NameEntry{Type: o.S, Name: uNames[o.N]}
+					ne := uName(o.S, o.N)
 					switch o.S {
 					case "dhcp4":
 						h.UpdateDHCP4Name(ne)
@@ -334,7 +370,7 @@ func (hr *hostsRun) history() {
 				s.Release(net.HardwareAddr(mac[:]))
 				m.Release(model.MAC(mac[:]))
 			case "offer":
-				s.SetDHCPv4IPOffer(net.HardwareAddr(mac[:]), ip, packet.NameEntry{Type: "dhcp4", Name: uNames[o.N]})
+				s.SetDHCPv4IPOffer(net.HardwareAddr(mac[:]), ip, uName("dhcp4", o.N))
 				m.SetOffer(model.MAC(mac[:]), ip)
 			case "adv":
 				time.Sleep(o.D)
@@ -368,7 +404,9 @@ func (hr *hostsRun) history() {
 		if tripleStr(mt) != tripleStr(rt) {
 			c.ViolP("C04", "hosts:"+classifyTripleDiff(mt, rt, o), fmt.Sprintf("after %s tracked set differs\n model: %s\n real:  %s", o, tripleStr(mt), tripleStr(rt)), cs(step))
 			hr.viol = true
-			hr.checkNotifications(s, o, want, got, cs(step)) // the C06 monitor still judges this step on its own
+			if !hr.noReader {
+				hr.checkNotifications(s, o, want, got, cs(step)) // the C06 monitor still judges this step on its own
+			}
 			return
 		}
 		for i, uip := range uIPs {
@@ -414,7 +452,7 @@ func (hr *hostsRun) history() {
 			}
 		}
 		// ---- C06: notification trace
-		if !hr.checkNotifications(s, o, want, got, cs(step)) {
+		if !hr.noReader && !hr.checkNotifications(s, o, want, got, cs(step)) {
 			hr.viol = true
 			return
 		}
@@ -594,7 +632,7 @@ func runHosts(c *wk.Ctx) {
 	one := func(idx int64, ops []hop, cfg deadlines, kind string) {
 		c.Begin(idx, "hosts-history", nil)
 		c.Eval()
-		hr := &hostsRun{c: c, idx: idx, ops: ops, cfg: cfg, compare: true, states: states, trans: trans}
+		hr := &hostsRun{c: c, idx: idx, ops: ops, cfg: cfg, compare: true, states: states, trans: trans, noReader: kind == "random" && idx%16 == 11}
 		runBubble(c, idx, func() { hr.history() })
 		if hr.changed && !hr.viol {
 			c.Class(kind + ":" + histShape(ops))
